@@ -1,6 +1,6 @@
 (* proofs for C13: the transform kernel (K3), Table.transform at the content level, norm / pa /
    rankdata, element-wise axis independence *)
-From Coq Require Import List Arith ZArith QArith Lia Bool.
+From Coq Require Import List Arith ZArith QArith Lia Bool Permutation.
 From BiomV Require Import Base.Tree Base.ListUtil Base.Matrix Model.Table Model.Filter Model.Stored
   Model.Transform Proofs.FilterProofs Proofs.StoredProofs.
 Import ListNotations.
@@ -76,4 +76,475 @@ Proof.
   - destruct (ptranspose_shape 0%Q (length (oids t)) (scatter_all 0%Q (transpose (nsamp t) (mat t)) lay
         (map (fun c : call => norm_fn (fst (fst c))) (transform_calls Samp lay t)))) as [A B].
     split; [exact A|]. rewrite Rl in B. exact B.
+Qed.
+
+(* ------------------------------------------------------------------ K3: the kernel on its arrays *)
+Lemma mono_tail x l : mono (x :: l) -> mono l.
+Proof. destruct l as [|y l]; simpl; [trivial|tauto]. Qed.
+
+Lemma mono_step l : mono l -> forall i, S i < length l -> nth i l 0 <= nth (S i) l 0.
+Proof.
+  induction l as [|x l IH]; intros M i Hi; simpl in Hi; [lia|].
+  destruct l as [|y l]; [simpl in Hi; lia|]. destruct M as [Hxy M].
+  destruct i as [|i]; [exact Hxy|]. apply (IH M i). simpl in *. lia.
+Qed.
+
+Lemma mono_nth l : mono l -> forall i j, i <= j -> j < length l -> nth i l 0 <= nth j l 0.
+Proof.
+  intros M i j Hij. induction Hij as [|j Hij IH]; intros Hj; [lia|].
+  pose proof (mono_step l M j Hj). specialize (IH ltac:(lia)). lia.
+Qed.
+
+Lemma skipn_app_exact {A} (a b : list A) k : length a = k -> skipn k (a ++ b) = b.
+Proof. intros <-. rewrite skipn_app, skipn_all, Nat.sub_diag. reflexivity. Qed.
+
+Lemma firstn_app_exact {A} (a b : list A) k : length a = k -> firstn k (a ++ b) = a.
+Proof. intros <-. rewrite firstn_app, firstn_all, Nat.sub_diag. simpl. apply app_nil_r. Qed.
+
+Lemma skipn_app_ge {A} (a b : list A) e : length a <= e -> skipn e (a ++ b) = skipn (e - length a) b.
+Proof. intros H. rewrite skipn_app. rewrite skipn_all2 by exact H. reflexivity. Qed.
+
+Lemma skipn_skipn' {A} (l : list A) x y : skipn x (skipn y l) = skipn (y + x) l.
+Proof.
+  revert l. induction y as [|y IH]; intros l; simpl; [reflexivity|]. destruct l as [|z l]; [destruct x; reflexivity|]. apply IH.
+Qed.
+
+Section K3.
+  Variable n : nat.
+  Variable indptr : list nat.
+  Variable ids : list Z.
+  Variable md : option (list Tree).
+  Variable outs : list (list Z).
+  Variable data : list Z.
+  Hypothesis HP : ptr_wf n indptr (length data).
+  Hypothesis HO : outs_fit_ptr n indptr outs.
+
+  Let p (i : nat) := nth i indptr 0.
+  Let the_call (i : nat) : call := (slice data (p i) (p (S i)), nth i ids 0%Z, kernel_md md i).
+  Let the_out (i : nat) : list Z := nth i outs [].
+
+  Lemma p_mono i j : i <= j -> j <= n -> p i <= p j.
+  Proof. destruct HP as (L & _ & M & _). intros Hij Hj. unfold p. apply mono_nth; [exact M|exact Hij|lia]. Qed.
+
+  Lemma p_last : p n = length data.
+  Proof. destruct HP as (_ & _ & _ & E). exact E. Qed.
+
+  Lemma p_first : p 0 = 0.
+  Proof. destruct HP as (_ & E & _). exact E. Qed.
+
+  Lemma concat_outs_length k : k <= n -> length (concat (map the_out (seq 0 k))) = p k.
+  Proof.
+    induction k as [|k IH]; intros Hk; [simpl; symmetry; exact p_first|].
+    rewrite seq_S, map_app, concat_app, app_length, IH by lia. simpl. rewrite app_nil_r.
+    unfold the_out. rewrite (HO k) by lia. fold (p k) (p (S k)). pose proof (p_mono k (S k)). lia.
+  Qed.
+
+  Lemma kernel_inv k : k <= n ->
+    fold_left (kernel_body indptr ids md outs) (seq 0 k) (data, []) =
+    (concat (map the_out (seq 0 k)) ++ skipn (p k) data, map the_call (seq 0 k)).
+  Proof.
+    induction k as [|k IH]; intros Hk.
+    - simpl. rewrite p_first. reflexivity.
+    - rewrite seq_S, fold_left_app, IH by lia. simpl fold_left. unfold kernel_body.
+      fold (p k) (p (S k)).
+      pose proof (concat_outs_length k ltac:(lia)) as LA. pose proof (p_mono k (S k) ltac:(lia) Hk) as Hm.
+      set (A := concat (map the_out (seq 0 k))) in *.
+      f_equal.
+      + unfold splice. rewrite (firstn_app_exact A _ (p k) LA).
+        rewrite (skipn_app_ge A _ (p (S k))) by lia. rewrite LA, skipn_skipn'.
+        replace (p k + (p (S k) - p k)) with (p (S k)) by lia.
+        rewrite map_app, concat_app. simpl. rewrite app_nil_r. fold (the_out k). rewrite <- app_assoc. reflexivity.
+      + rewrite map_app. simpl. f_equal. unfold the_call, slice. rewrite (skipn_app_exact A _ (p k) LA). reflexivity.
+  Qed.
+
+  (* the user function is called once per vector, in order, with the stored values of that vector
+     as they were BEFORE the call, its id and its metadata entry; afterwards the value array is the
+     concatenation of what it returned; indptr and indices are untouched *)
+  Theorem kernel_spec (indices : list nat) :
+    let r := mkA indptr indices data in
+    snd (kernel_arr n ids md outs r) = map the_call (seq 0 n) /\
+    a_data (fst (kernel_arr n ids md outs r)) = concat (map the_out (seq 0 n)) /\
+    length (a_data (fst (kernel_arr n ids md outs r))) = length data /\
+    a_indptr (fst (kernel_arr n ids md outs r)) = indptr /\ a_indices (fst (kernel_arr n ids md outs r)) = indices.
+  Proof.
+    unfold kernel_arr, kernel. simpl. rewrite (kernel_inv n (le_n n)). simpl.
+    rewrite p_last, skipn_all, app_nil_r.
+    repeat split; try reflexivity. rewrite (concat_outs_length n (le_n n)). exact p_last.
+  Qed.
+End K3.
+
+(* ------------------------------------------------------------------ Table.transform at the content level *)
+Lemma nth_scatter_all {V} (zero : V) : forall vs lay (outs : list (list V)) i, i < length vs ->
+  nth i (scatter_all zero vs lay outs) [] = scatter zero (length (nth i vs [])) (nth i lay []) (nth i outs []).
+Proof.
+  induction vs as [|v vs IH]; intros lay outs i Hi; simpl in Hi; [lia|].
+  destruct i as [|i]; simpl.
+  - destruct lay, outs; reflexivity.
+  - rewrite IH by lia. destruct lay, outs; simpl; try reflexivity; destruct i; reflexivity.
+Qed.
+
+Lemma scatter_all_length {V} (zero : V) vs lay (outs : list (list V)) : length (scatter_all zero vs lay outs) = length vs.
+Proof. revert lay outs. induction vs as [|v vs IH]; intros; simpl; [reflexivity|]. rewrite IH. reflexivity. Qed.
+
+Lemma transform_table_vecs a lay outs t : wf t ->
+  axis_vecs a (transform_table a lay outs t) = scatter_all 0%Z (axis_vecs a t) lay outs.
+Proof.
+  intros W. unfold transform_table.
+  destruct (same_len_rect_gen (n_other a t) _ _ (scatter_all_shape 0%Z (axis_vecs a t) lay outs) (axis_vecs_rect a t W))
+    as [Rc Rl].
+  rewrite (axis_vecs_length a t W) in Rl. apply axis_vecs_with; assumption.
+Qed.
+
+Lemma vec_nth_axis_vecs a t i : wf t -> i < length (ids a t) -> vec a t i = nth i (axis_vecs a t) [].
+Proof.
+  intros W Hi. rewrite (axis_vecs_vec a t W).
+  rewrite (nth_map_seq (vec a t) (length (ids a t)) i [] Hi). reflexivity.
+Qed.
+
+Lemma ids_transform_table b a lay outs t : ids b (transform_table a lay outs t) = ids b t.
+Proof. destruct b; reflexivity. Qed.
+
+(* the vector at position i after the transform: the outputs scattered to the stored positions *)
+Lemma transform_table_vec a lay outs t i : wf t -> i < length (ids a t) ->
+  vec a (transform_table a lay outs t) i = scatter 0%Z (length (vec a t i)) (nth i lay []) (nth i outs []).
+Proof.
+  intros W Hi. rewrite (vec_nth_axis_vecs a _ i (transform_table_wf a lay outs t W)) by (rewrite ids_transform_table; exact Hi).
+  rewrite (transform_table_vecs a lay outs t W).
+  rewrite nth_scatter_all by (rewrite (axis_vecs_length a t W); exact Hi).
+  rewrite <- (vec_nth_axis_vecs a t i W Hi). reflexivity.
+Qed.
+
+Lemma Forall2_nth_lay (R : list Z -> list nat -> Prop) vs lay i :
+  Forall2 R vs lay -> i < length vs -> R (nth i vs []) (nth i lay []).
+Proof.
+  intros H. revert i. induction H as [|v o vs lay Hvo _ IH]; intros i Hi; simpl in Hi; [lia|].
+  destruct i as [|i]; [exact Hvo|]. apply IH. lia.
+Qed.
+
+(* zero cells: untouched as long as no zero is stored *)
+Lemma scatter_all_zero_stays vs lay outs : lay_ok vs lay ->
+  forall i j, get vs i j = 0%Z -> get (scatter_all 0%Z vs lay outs) i j = 0%Z.
+Proof.
+  intros H i j Hz. unfold get in *. destruct (Nat.lt_ge_cases i (length vs)) as [Hi|Hi].
+  - rewrite nth_scatter_all by exact Hi. apply nth_scatter_absent.
+    destruct (Forall2_nth_lay ord_ok vs lay i H Hi) as [_ Hnz]. intros Hin. apply (Hnz j Hin). exact Hz.
+  - rewrite (nth_overflow (scatter_all _ _ _ _)) by (rewrite scatter_all_length; exact Hi). destruct j; reflexivity.
+Qed.
+
+Lemma count_nz_mono : forall r r' : list Z, length r' = length r ->
+  (forall j, j < length r -> nth j r 0%Z = 0%Z -> nth j r' 0%Z = 0%Z) -> count_nz r' <= count_nz r.
+Proof.
+  unfold count_nz. induction r as [|x r IH]; intros [|y r'] L H; simpl in *; try discriminate; [lia|].
+  assert (IH' : length (filter (fun v => negb (v =? 0)%Z) r') <= length (filter (fun v => negb (v =? 0)%Z) r)).
+  { apply IH; [lia|]. intros j Hj Hz. apply (H (S j)); [lia|exact Hz]. }
+  destruct (Z.eqb_spec x 0) as [->|Hx]; simpl.
+  - rewrite (H 0); [simpl; exact IH'|lia|reflexivity].
+  - destruct (y =? 0)%Z; simpl; lia.
+Qed.
+
+Lemma nnz_mono c : forall M M' : matrix, length M' = length M -> rect c M -> rect c M' ->
+  (forall i j, i < length M -> j < c -> get M i j = 0%Z -> get M' i j = 0%Z) -> nnz M' <= nnz M.
+Proof.
+  unfold nnz. induction M as [|r M IH]; intros [|r' M'] L R R' H; simpl in *; try discriminate; [lia|].
+  inversion R; subst. inversion R'; subst.
+  assert (count_nz r' <= count_nz r).
+  { apply count_nz_mono; [congruence|]. intros j Hj Hz. apply (H 0 j); [lia|exact Hj|exact Hz]. }
+  assert (nsum (map count_nz M') <= nsum (map count_nz M)).
+  { apply IH; try assumption; [lia|]. intros i j Hi Hj Hz. apply (H (S i) j); [lia|exact Hj|exact Hz]. }
+  lia.
+Qed.
+
+Lemma aget_zero_stays a vs lay outs : lay_ok vs lay ->
+  forall i j, aget a vs i j = 0%Z -> aget a (scatter_all 0%Z vs lay outs) i j = 0%Z.
+Proof. intros H i j. destruct a; simpl; apply scatter_all_zero_stays; exact H. Qed.
+
+Theorem transform_cells_spec a lay outs t :
+  wf t -> lay_ok (axis_vecs a t) lay ->
+  let t' := transform_table a lay outs t in
+  (forall o s, cell t o s = Some 0%Z -> cell t' o s = Some 0%Z) /\
+  nnz (mat t') <= nnz (mat t) /\
+  (forall i k, i < length (ids a t) -> k < length (nth i lay []) ->
+     nth (nth k (nth i lay []) 0) (vec a t' i) 0%Z = nth k (nth i outs []) 0%Z).
+Proof.
+  intros W HL t'. split; [|split].
+  - intros o s Hc. unfold t', transform_table. rewrite cell_with_axis_vecs. rewrite (cell_axis_vecs a t o s W) in Hc.
+    destruct (pos o (oids t)) as [i|]; [|discriminate]. destruct (pos s (sids t)) as [j|]; [|discriminate].
+    injection Hc as Hc. f_equal. apply aget_zero_stays; assumption.
+  - pose proof (transform_table_wf a lay outs t W) as W'. fold t' in W'.
+    destruct W as (H1 & H2 & _). destruct W' as (H1' & H2' & _).
+    apply (nnz_mono (nsamp t)).
+    + unfold nobs in *. rewrite H1', H1. destruct a; reflexivity.
+    + exact H2.
+    + replace (nsamp t) with (nsamp t') by (destruct a; reflexivity). exact H2'.
+    + intros i j Hi Hj Hz. unfold t', transform_table. rewrite get_with_axis_vecs by (unfold nobs in *; lia).
+      rewrite (get_axis_vecs a t i j Hj) in Hz. apply aget_zero_stays; assumption.
+  - intros i k Hi Hk. unfold t'. rewrite (transform_table_vec a lay outs t i W Hi).
+    assert (Hv : i < length (axis_vecs a t)) by (rewrite (axis_vecs_length a t W); exact Hi).
+    destruct (Forall2_nth_lay ord_ok _ lay i HL Hv) as [(Hn & Hb & _) _].
+    rewrite <- (vec_nth_axis_vecs a t i W Hi) in Hb.
+    apply nth_scatter_stored; [exact Hn|exact Hk|]. apply Hb. apply nth_In. exact Hk.
+Qed.
+
+(* ... and with an explicitly stored zero the user function reaches a zero cell: x + 1 makes it 1 *)
+Lemma stored_zero_breaks : exists a lay outs t,
+  wf t /\ lay_wf (axis_vecs a t) lay /\ outs_fit a lay outs t = true /\
+  cell t 1%Z 20%Z = Some 0%Z /\ cell (transform_table a lay outs t) 1%Z 20%Z = Some 1%Z /\
+  nnz (mat t) < nnz (mat (transform_table a lay outs t)).
+Proof.
+  exists Obs, [[0;1]], [[2;1]]%Z, (mkT [1]%Z [10;20]%Z [[1;0]]%Z None None 0%Z).
+  split; [apply wfb_wf; vm_compute; reflexivity|].
+  split; [apply lay_wfb_wf; vm_compute; reflexivity|].
+  vm_compute. repeat split; try reflexivity; try lia.
+Qed.
+
+(* ------------------------------------------------------------------ fixed functions *)
+Lemma transform_calls_length a lay t : length (transform_calls a lay t) = length (ids a t).
+Proof. unfold transform_calls. rewrite map_length, seq_length. reflexivity. Qed.
+
+Lemma nth_apply_fn f a lay t i : i < length (ids a t) ->
+  nth i (apply_fn f (transform_calls a lay t)) [] = f (gather 0%Z (nth i lay []) (vec a t i)).
+Proof.
+  intros Hi. unfold apply_fn, transform_calls. rewrite map_map.
+  rewrite (nth_map_seq (fun x => f (fst (fst (gather 0%Z (nth x lay []) (vec a t x), nth x (ids a t) 0%Z, md_at a t x))))
+             (length (ids a t)) i [] Hi).
+  reflexivity.
+Qed.
+
+(* a length-preserving function is never refused *)
+Lemma outs_fit_apply_fn f a lay t : (forall l, length (f l) = length l) ->
+  outs_fit a lay (apply_fn f (transform_calls a lay t)) t = true.
+Proof.
+  intros Hf. unfold outs_fit. apply forallb_forall. intros i Hi. apply in_seq in Hi.
+  rewrite nth_apply_fn by lia. rewrite Hf, gather_length. apply Nat.eqb_refl.
+Qed.
+
+Lemma transform_with_ok f a inplace lay t : (forall l, length (f l) = length l) ->
+  transform_with f a inplace lay t =
+  (if inplace then transform_table a lay (apply_fn f (transform_calls a lay t)) t else t,
+   ROk (transform_table a lay (apply_fn f (transform_calls a lay t)) t)).
+Proof. intros Hf. unfold transform_with, transform. rewrite outs_fit_apply_fn by exact Hf. reflexivity. Qed.
+
+Lemma transform_with_vec f a lay t i : wf t -> i < length (ids a t) ->
+  vec a (transform_table a lay (apply_fn f (transform_calls a lay t)) t) i
+  = scatter 0%Z (length (vec a t i)) (nth i lay []) (f (gather 0%Z (nth i lay []) (vec a t i))).
+Proof. intros W Hi. rewrite transform_table_vec by assumption. rewrite nth_apply_fn by exact Hi. reflexivity. Qed.
+
+(* an element-wise function through one vector: zeros untouched, g elsewhere *)
+Lemma guard_0 g : guard g 0%Z = 0%Z.
+Proof. reflexivity. Qed.
+
+Lemma scatter_elementwise g v ord :
+  ord_wf v ord -> (ord_ok v ord \/ g 0%Z = 0%Z) ->
+  scatter 0%Z (length v) ord (map g (gather 0%Z ord v)) = map (guard g) v.
+Proof.
+  intros W Hg. pose proof W as (Hn & Hb & Hs). apply (list_ext 0%Z).
+  - rewrite scatter_length, map_length. reflexivity.
+  - intros j Hj. rewrite scatter_length in Hj. rewrite nth_scatter by exact Hj.
+    rewrite (nth_map_in (guard g) v j 0%Z 0%Z Hj). unfold guard.
+    destruct (nfind j ord) as [k|] eqn:E.
+    + apply nfind_Some in E. destruct E as [E Hk].
+      rewrite (nth_map_in g (gather 0%Z ord v) k 0%Z 0%Z) by (rewrite gather_length; exact Hk).
+      unfold gather. rewrite (nth_map_in _ ord k 0 0%Z Hk). rewrite E.
+      destruct (Z.eqb_spec (nth j v 0%Z) 0) as [Z0|NZ]; [|reflexivity].
+      destruct Hg as [[_ Hok]|Hg0].
+      * exfalso. apply (Hok j); [rewrite <- E; apply nth_In; exact Hk|exact Z0].
+      * rewrite Z0. exact Hg0.
+    + apply nfind_None in E. destruct (Z.eqb_spec (nth j v 0%Z) 0) as [Z0|NZ]; [reflexivity|].
+      exfalso. apply E. apply Hs; assumption.
+Qed.
+
+Lemma mcol_map_map h (N : matrix) i : h 0%Z = 0%Z -> mcol (map (map h) N) i = map h (mcol N i).
+Proof.
+  intros H0. unfold mcol. rewrite !map_map. apply map_ext. intros r.
+  destruct (Nat.lt_ge_cases i (length r)) as [Hi|Hi].
+  - apply (nth_map_in h r i 0%Z 0%Z Hi).
+  - rewrite !nth_overflow by (rewrite ?map_length; exact Hi). symmetry. exact H0.
+Qed.
+
+Lemma transpose_map_map h c (N : matrix) : h 0%Z = 0%Z -> transpose c (map (map h) N) = map (map h) (transpose c N).
+Proof. intros H0. unfold transpose. rewrite map_map. apply map_ext. intros i. apply mcol_map_map. exact H0. Qed.
+
+(* the whole table: every cell x becomes  guard g x  (0 stays 0, g x elsewhere), whichever axis
+   the function is applied along and whatever the stored layout *)
+Theorem transform_elementwise a lay g t :
+  wf t -> lay_wf (axis_vecs a t) lay -> (lay_ok (axis_vecs a t) lay \/ g 0%Z = 0%Z) ->
+  mat (transform_table a lay (apply_fn (elementwise g) (transform_calls a lay t)) t) = map (map (guard g)) (mat t).
+Proof.
+  intros W HL Hg.
+  assert (E : scatter_all 0%Z (axis_vecs a t) lay (apply_fn (elementwise g) (transform_calls a lay t))
+              = map (map (guard g)) (axis_vecs a t)).
+  { apply (list_ext []).
+    - rewrite scatter_all_length, map_length. reflexivity.
+    - intros i Hi. rewrite scatter_all_length in Hi. rewrite nth_scatter_all by exact Hi.
+      assert (Hi' : i < length (ids a t)) by (rewrite <- (axis_vecs_length a t W); exact Hi).
+      rewrite nth_apply_fn by exact Hi'. rewrite (vec_nth_axis_vecs a t i W Hi').
+      rewrite (nth_map_in (map (guard g)) (axis_vecs a t) i [] [] Hi).
+      apply scatter_elementwise; [apply (Forall2_nth_lay ord_wf _ lay i HL Hi)|].
+      destruct Hg as [Hok|H0]; [left; apply (Forall2_nth_lay ord_ok _ lay i Hok Hi)|right; exact H0]. }
+  unfold transform_table, with_axis_vecs. simpl mat. rewrite E.
+  destruct a; unfold mat_of_vecs, n_other; simpl; [reflexivity|].
+  change (ptranspose 0%Z (length (oids t)) (map (map (guard g)) (transpose (nsamp t) (mat t))))
+    with (transpose (length (oids t)) (map (map (guard g)) (transpose (nsamp t) (mat t)))).
+  rewrite transpose_map_map by apply guard_0. destruct W as (H1 & H2 & _). unfold nobs in H1. rewrite <- H1.
+  rewrite (transpose_involutive (nsamp t) (mat t) H2). reflexivity.
+Qed.
+
+Corollary elementwise_axis_indep_gen g lay1 lay2 t :
+  wf t -> lay_ok (axis_vecs Obs t) lay1 -> lay_ok (axis_vecs Samp t) lay2 ->
+  mat (transform_table Obs lay1 (apply_fn (elementwise g) (transform_calls Obs lay1 t)) t)
+  = mat (transform_table Samp lay2 (apply_fn (elementwise g) (transform_calls Samp lay2 t)) t).
+Proof.
+  intros W H1 H2. rewrite !transform_elementwise; try assumption; try (left; assumption); try reflexivity;
+    apply lay_ok_wf; assumption.
+Qed.
+
+(* pa: 1 exactly where the table is non-zero, for EVERY layout (the function guards zeros itself) *)
+Lemma pa_fn_elementwise one : pa_fn one = elementwise (fun x => if Z.eqb x 0 then 0%Z else one).
+Proof. reflexivity. Qed.
+
+Theorem pa_table_spec one inplace lay t :
+  wf t -> lay_wf (axis_vecs Samp t) lay ->
+  exists t', pa one inplace lay t = (if inplace then t' else t, ROk t') /\
+    mat t' = map (map (fun x => if Z.eqb x 0 then 0%Z else one)) (mat t) /\
+    oids t' = oids t /\ sids t' = sids t /\ omd t' = omd t /\ smd t' = smd t /\ ttype t' = ttype t.
+Proof.
+  intros W HL. eexists. split.
+  - unfold pa. apply transform_with_ok. intros l. apply map_length.
+  - split; [|repeat split; reflexivity].
+    rewrite pa_fn_elementwise. rewrite transform_elementwise; [|exact W|exact HL|right; reflexivity].
+    apply map_ext. intros r. apply map_ext. intros x. unfold guard. destruct (x =? 0)%Z; reflexivity.
+Qed.
+
+(* ------------------------------------------------------------------ rankdata *)
+Lemma NoDup_filter_gen {A} (f : A -> bool) l : NoDup l -> NoDup (filter f l).
+Proof.
+  induction 1 as [|x l Hx _ IH]; simpl; [constructor|]. destruct (f x); [|exact IH].
+  constructor; [|exact IH]. intros H. apply filter_In in H. tauto.
+Qed.
+
+Lemma filter_map_comm {A B} (P : B -> bool) (f : A -> B) l : filter P (map f l) = map f (filter (fun x => P (f x)) l).
+Proof. induction l as [|x l IH]; simpl; [reflexivity|]. destruct (P (f x)); simpl; rewrite IH; reflexivity. Qed.
+
+Lemma canon_ord_length v : length (canon_ord v) = count_nz v.
+Proof.
+  unfold canon_ord, count_nz.
+  transitivity (length (filter (fun x => negb (x =? 0)%Z) (map (fun i => nth i v 0%Z) (seq 0 (length v))))).
+  - rewrite filter_map_comm, map_length. reflexivity.
+  - rewrite map_nth_seq. reflexivity.
+Qed.
+
+Lemma ord_ok_count v ord : ord_ok v ord -> length ord = count_nz v.
+Proof.
+  intros ((Hn & Hb & Hs) & Hnz). rewrite <- canon_ord_length. apply Permutation_length.
+  apply NoDup_Permutation; [exact Hn|apply NoDup_filter_gen; apply seq_NoDup|].
+  intros j. unfold canon_ord. rewrite filter_In, in_seq, negb_true_iff, Z.eqb_neq. split.
+  - intros H. split; [split; [lia|apply Hb; exact H]|apply Hnz; exact H].
+  - intros [[_ H1] H2]. apply Hs; assumption.
+Qed.
+
+Section Rank.
+  Variable rk : list Z -> list Z.                        (* scipy.stats.rankdata(., method) *)
+  Hypothesis rk_len : forall l, length (rk l) = length l.
+
+  Theorem rank_table_spec a inplace lay t :
+    wf t -> lay_ok (axis_vecs a t) lay ->
+    exists t', rankdata rk a inplace lay t = (if inplace then t' else t, ROk t') /\
+      forall i, i < length (ids a t) ->
+        length (nth i lay []) = count_nz (vec a t i) /\
+        Forall (fun x => x <> 0%Z) (gather 0%Z (nth i lay []) (vec a t i)) /\
+        (forall k, k < length (nth i lay []) ->
+           nth (nth k (nth i lay []) 0) (vec a t i) 0%Z <> 0%Z /\
+           nth (nth k (nth i lay []) 0) (vec a t' i) 0%Z = nth k (rk (gather 0%Z (nth i lay []) (vec a t i))) 0%Z) /\
+        (forall j, nth j (vec a t i) 0%Z = 0%Z -> nth j (vec a t' i) 0%Z = 0%Z).
+  Proof.
+    intros W HL. eexists. split; [unfold rankdata; apply transform_with_ok; exact rk_len|].
+    intros i Hi.
+    assert (Hv : i < length (axis_vecs a t)) by (rewrite (axis_vecs_length a t W); exact Hi).
+    pose proof (Forall2_nth_lay ord_ok _ lay i HL Hv) as Hok. rewrite <- (vec_nth_axis_vecs a t i W Hi) in Hok.
+    pose proof Hok as ((Hn & Hb & Hs) & Hnz).
+    split; [apply ord_ok_count; exact Hok|]. split; [|split].
+    - unfold gather. apply Forall_forall. intros x Hx. apply in_map_iff in Hx. destruct Hx as [j [<- Hj]]. apply Hnz. exact Hj.
+    - intros k Hk. split; [apply Hnz; apply nth_In; exact Hk|].
+      rewrite transform_with_vec by assumption. apply nth_scatter_stored; [exact Hn|exact Hk|].
+      apply Hb. apply nth_In. exact Hk.
+    - intros j Hz. rewrite transform_with_vec by assumption. apply nth_scatter_absent. intros Hin. apply (Hnz j Hin Hz).
+  Qed.
+End Rank.
+
+(* ------------------------------------------------------------------ norm *)
+Open Scope Q_scope.
+Lemma Qmake_plus x y p : (x # p) + (y # p) == (x + y # p).
+Proof. unfold Qeq, Qplus. simpl. rewrite Pos2Z.inj_mul. ring. Qed.
+
+Lemma qsum_scaled l p : qsum (map (fun x => x # p) l) == (zsum l # p).
+Proof.
+  induction l as [|x l IH]; simpl.
+  - unfold Qeq. simpl. reflexivity.
+  - rewrite IH. apply Qmake_plus.
+Qed.
+
+Lemma qsum_pointwise : forall a b : list Q, length a = length b ->
+  (forall j, nth j a 0 == nth j b 0) -> qsum a == qsum b.
+Proof.
+  induction a as [|x a IH]; intros [|y b] L H; simpl in *; try discriminate; [reflexivity|].
+  rewrite (H 0%nat). rewrite (IH b); [reflexivity|lia|]. intros j. apply (H (S j)).
+Qed.
+
+Lemma Qmake_self s : (0 < s)%Z -> (s # Z.to_pos s) == 1.
+Proof. intros H. unfold Qeq. simpl. rewrite Z2Pos.id by exact H. ring. Qed.
+Close Scope Q_scope.
+
+Lemma norm_vec_nth v ord j : ord_wf v ord ->
+  Qeq (nth j (scatter 0%Q (length v) ord (norm_fn (gather 0%Z ord v))) 0%Q) (Qmake (nth j v 0%Z) (Z.to_pos (zsum v))).
+Proof.
+  intros W. pose proof W as (Hn & Hb & Hs). destruct (Nat.lt_ge_cases j (length v)) as [Hj|Hj].
+  - rewrite nth_scatter by exact Hj. destruct (nfind j ord) as [k|] eqn:E.
+    + apply nfind_Some in E. destruct E as [E Hk]. unfold norm_fn.
+      rewrite (nth_map_in _ (gather 0%Z ord v) k 0%Z 0%Q) by (rewrite gather_length; exact Hk).
+      rewrite (zsum_gather v ord W). unfold gather. rewrite (nth_map_in _ ord k 0 0%Z Hk). rewrite E. reflexivity.
+    + apply nfind_None in E. destruct (Z.eq_dec (nth j v 0%Z) 0) as [Z0|NZ].
+      * rewrite Z0. unfold Qeq. simpl. reflexivity.
+      * exfalso. apply E. apply Hs; assumption.
+  - rewrite nth_overflow by (rewrite scatter_length; exact Hj). rewrite (nth_overflow v) by exact Hj.
+    unfold Qeq. simpl. reflexivity.
+Qed.
+
+Lemma norm_vecs_nth a lay t i : wf t -> i < length (ids a t) ->
+  nth i (norm_vecs a lay t) [] = scatter 0%Q (length (vec a t i)) (nth i lay []) (norm_fn (gather 0%Z (nth i lay []) (vec a t i))).
+Proof.
+  intros W Hi. unfold norm_vecs.
+  rewrite nth_scatter_all by (rewrite (axis_vecs_length a t W); exact Hi).
+  rewrite <- (vec_nth_axis_vecs a t i W Hi). f_equal.
+  unfold transform_calls. rewrite map_map.
+  rewrite (nth_map_seq (fun x => norm_fn (fst (fst (gather 0%Z (nth x lay []) (vec a t x), nth x (ids a t) 0%Z, md_at a t x))))
+             (length (ids a t)) i [] Hi).
+  reflexivity.
+Qed.
+
+(* every vector: entry j is x_j / total (so proportions are preserved and zeros stay zero);
+   a vector with a positive total sums to 1 *)
+Theorem norm_vecs_spec a lay t :
+  wf t -> lay_wf (axis_vecs a t) lay ->
+  forall i, i < length (ids a t) ->
+    length (nth i (norm_vecs a lay t) []) = length (vec a t i) /\
+    (forall j, Qeq (nth j (nth i (norm_vecs a lay t) []) 0%Q) (Qmake (nth j (vec a t i) 0%Z) (Z.to_pos (zsum (vec a t i))))) /\
+    ((0 < zsum (vec a t i))%Z -> Qeq (qsum (nth i (norm_vecs a lay t) [])) 1%Q) /\
+    (forall j k, Qeq (Qmult (nth j (nth i (norm_vecs a lay t) []) 0%Q) (inject_Z (nth k (vec a t i) 0%Z)))
+                     (Qmult (nth k (nth i (norm_vecs a lay t) []) 0%Q) (inject_Z (nth j (vec a t i) 0%Z)))).
+Proof.
+  intros W HL i Hi. rewrite (norm_vecs_nth a lay t i W Hi).
+  assert (Hv : i < length (axis_vecs a t)) by (rewrite (axis_vecs_length a t W); exact Hi).
+  pose proof (Forall2_nth_lay ord_wf _ lay i HL Hv) as Hw. rewrite <- (vec_nth_axis_vecs a t i W Hi) in Hw.
+  set (v := vec a t i) in *. set (ord := nth i lay []) in *.
+  assert (P : forall j, Qeq (nth j (scatter 0%Q (length v) ord (norm_fn (gather 0%Z ord v))) 0%Q)
+                            (Qmake (nth j v 0%Z) (Z.to_pos (zsum v)))) by (intros j; apply norm_vec_nth; exact Hw).
+  split; [apply scatter_length|]. split; [exact P|]. split.
+  - intros Hpos.
+    rewrite (qsum_pointwise _ (map (fun x => Qmake x (Z.to_pos (zsum v))) v)).
+    + rewrite qsum_scaled. apply Qmake_self. exact Hpos.
+    + rewrite scatter_length, map_length. reflexivity.
+    + intros j. rewrite (P j). destruct (Nat.lt_ge_cases j (length v)) as [Hj|Hj].
+      * rewrite (nth_map_in _ v j 0%Z 0%Q Hj). reflexivity.
+      * rewrite !nth_overflow by (rewrite ?map_length; exact Hj). unfold Qeq. simpl. reflexivity.
+  - intros j k. rewrite (P j), (P k). unfold Qeq, Qmult, inject_Z. simpl. ring.
 Qed.
